@@ -10,7 +10,10 @@ import subprocess
 import sys
 
 V = '/verif'
-seeds = sys.argv[1:] or sorted(d for d in os.listdir(V + '/seeded') if re.match(r'C\d\d-\d+$', d))
+if sys.argv[1:] == ['--readme-only']:
+    seeds = []
+else:
+    seeds = sys.argv[1:] or sorted(d for d in os.listdir(V + '/seeded') if re.match(r'C\d\d-\d+$', d))
 head = subprocess.check_output(['git', '-C', '/repo', 'rev-parse', '--short', 'HEAD'], universal_newlines=True).strip()
 rows = []
 for s in seeds:
